@@ -166,11 +166,17 @@ def run(ctx, R, tier):
         ok = True
         why = ''
         seen_persist = set()
+        forms = set()
         for p in prs:
             dec = {}
             for bb, desc, lab in p.decisions:
                 if 'Iterator::any' in desc:
                     dec['any'] = bool_label(lab)
+                    forms.add('any')
+                elif 'Iterator::all' in desc and bool_label(lab) is not None:
+                    # !all(removable) is the same test as any(!removable)
+                    dec['any'] = not bool_label(lab)
+                    forms.add('all')
                 elif desc.endswith('persist_until_sounds_finish'):
                     dec['persist'] = bool_label(lab)
                 elif 'is_marked_for_removal' in desc:
@@ -210,9 +216,12 @@ def run(ctx, R, tier):
             rec = calls_to(c, TRACK + '::should_be_removed')
             if rec:
                 rets = [p.ret for p in explore(c) if p.end == 'return']
-                okc = all(r is not None and r.startswith('Not(') for r in rets)
+                if forms == {'any'}:
+                    okc = all(r is not None and r.startswith('Not(') and 'should_be_removed' in r for r in rets)
+                elif forms == {'all'}:
+                    okc = all(r is not None and r.startswith(TRACK + '::should_be_removed(') for r in rets)
         R.check(okc, 'B.C12.remove', 'children', 'the child test is not `!sub_track.should_be_removed()`',
-                detail='any(|t| !t.should_be_removed())')
+                detail='any(|t| !t.should_be_removed())  (or !all(|t| t.should_be_removed()))')
 
     # ---- both storages holding Tracks remove with should_be_removed
     npred = 0
